@@ -100,6 +100,7 @@ mod verif_c07_twins {
     }
 
     //@ obligation C07 C07.VirtAddr_add_u64.exact_or_panic
+    //@ obligation C03 C03.VirtAddr_add_u64.valid
     #[kani::proof]
     #[kani::should_panic]
     fn c07_twin_virtaddr_add_u64_panics() {
@@ -113,6 +114,7 @@ mod verif_c07_twins {
     }
 
     //@ obligation C07 C07.VirtAddr_add_assign_u64.exact_or_panic
+    //@ obligation C03 C03.VirtAddr_add_assign_u64.valid
     #[kani::proof]
     fn c07_twin_virtaddr_add_assign_u64_exact() {
         let (a, mut v) = any_virt();
@@ -128,6 +130,7 @@ mod verif_c07_twins {
     }
 
     //@ obligation C07 C07.VirtAddr_add_assign_u64.exact_or_panic
+    //@ obligation C03 C03.VirtAddr_add_assign_u64.valid
     #[kani::proof]
     #[kani::should_panic]
     fn c07_twin_virtaddr_add_assign_u64_panics() {
@@ -158,6 +161,7 @@ mod verif_c07_twins {
     }
 
     //@ obligation C07 C07.VirtAddr_sub_u64.exact_or_panic
+    //@ obligation C03 C03.VirtAddr_sub_u64.valid
     #[kani::proof]
     #[kani::should_panic]
     fn c07_twin_virtaddr_sub_u64_panics() {
@@ -171,6 +175,7 @@ mod verif_c07_twins {
     }
 
     //@ obligation C07 C07.VirtAddr_sub_assign_u64.exact_or_panic
+    //@ obligation C03 C03.VirtAddr_sub_assign_u64.valid
     #[kani::proof]
     fn c07_twin_virtaddr_sub_assign_u64_exact() {
         let (a, mut v) = any_virt();
@@ -186,6 +191,7 @@ mod verif_c07_twins {
     }
 
     //@ obligation C07 C07.VirtAddr_sub_assign_u64.exact_or_panic
+    //@ obligation C03 C03.VirtAddr_sub_assign_u64.valid
     #[kani::proof]
     #[kani::should_panic]
     fn c07_twin_virtaddr_sub_assign_u64_panics() {
@@ -244,6 +250,7 @@ mod verif_c07_twins {
     }
 
     //@ obligation C07 C07.PhysAddr_add_u64.exact_or_panic
+    //@ obligation C03 C03.PhysAddr_add_u64.valid
     #[kani::proof]
     #[kani::should_panic]
     fn c07_twin_physaddr_add_u64_panics() {
@@ -257,6 +264,7 @@ mod verif_c07_twins {
     }
 
     //@ obligation C07 C07.PhysAddr_add_assign_u64.exact_or_panic
+    //@ obligation C03 C03.PhysAddr_add_assign_u64.valid
     #[kani::proof]
     fn c07_twin_physaddr_add_assign_u64_exact() {
         let (a, mut v) = any_phys();
@@ -272,6 +280,7 @@ mod verif_c07_twins {
     }
 
     //@ obligation C07 C07.PhysAddr_add_assign_u64.exact_or_panic
+    //@ obligation C03 C03.PhysAddr_add_assign_u64.valid
     #[kani::proof]
     #[kani::should_panic]
     fn c07_twin_physaddr_add_assign_u64_panics() {
@@ -302,6 +311,7 @@ mod verif_c07_twins {
     }
 
     //@ obligation C07 C07.PhysAddr_sub_u64.exact_or_panic
+    //@ obligation C03 C03.PhysAddr_sub_u64.valid
     #[kani::proof]
     #[kani::should_panic]
     fn c07_twin_physaddr_sub_u64_panics() {
@@ -315,6 +325,7 @@ mod verif_c07_twins {
     }
 
     //@ obligation C07 C07.PhysAddr_sub_assign_u64.exact_or_panic
+    //@ obligation C03 C03.PhysAddr_sub_assign_u64.valid
     #[kani::proof]
     fn c07_twin_physaddr_sub_assign_u64_exact() {
         let (a, mut v) = any_phys();
@@ -330,6 +341,7 @@ mod verif_c07_twins {
     }
 
     //@ obligation C07 C07.PhysAddr_sub_assign_u64.exact_or_panic
+    //@ obligation C03 C03.PhysAddr_sub_assign_u64.valid
     #[kani::proof]
     #[kani::should_panic]
     fn c07_twin_physaddr_sub_assign_u64_panics() {
@@ -415,6 +427,7 @@ mod verif_c07_twins {
     }
 
     //@ obligation C07 C07.Page_add_u64.exact_or_panic
+    //@ obligation C03 C03.Page_add_u64.valid
     #[kani::proof]
     #[kani::should_panic]
     fn c07_twin_page_add_u64_panics() {
@@ -431,6 +444,7 @@ mod verif_c07_twins {
     }
 
     //@ obligation C07 C07.Page_add_assign_u64.exact_or_panic
+    //@ obligation C03 C03.Page_add_assign_u64.valid
     #[kani::proof]
     fn c07_twin_page_add_assign_u64_exact() {
         let sel: u8 = kani::any();
@@ -449,6 +463,7 @@ mod verif_c07_twins {
     }
 
     //@ obligation C07 C07.Page_add_assign_u64.exact_or_panic
+    //@ obligation C03 C03.Page_add_assign_u64.valid
     #[kani::proof]
     #[kani::should_panic]
     fn c07_twin_page_add_assign_u64_panics() {
@@ -509,6 +524,7 @@ mod verif_c07_twins {
     }
 
     //@ obligation C07 C07.Page_sub_u64.exact_or_panic
+    //@ obligation C03 C03.Page_sub_u64.valid
     #[kani::proof]
     #[kani::should_panic]
     fn c07_twin_page_sub_u64_panics() {
@@ -525,6 +541,7 @@ mod verif_c07_twins {
     }
 
     //@ obligation C07 C07.Page_sub_assign_u64.exact_or_panic
+    //@ obligation C03 C03.Page_sub_assign_u64.valid
     #[kani::proof]
     fn c07_twin_page_sub_assign_u64_exact() {
         let sel: u8 = kani::any();
@@ -543,6 +560,7 @@ mod verif_c07_twins {
     }
 
     //@ obligation C07 C07.Page_sub_assign_u64.exact_or_panic
+    //@ obligation C03 C03.Page_sub_assign_u64.valid
     #[kani::proof]
     #[kani::should_panic]
     fn c07_twin_page_sub_assign_u64_panics() {
@@ -647,6 +665,7 @@ mod verif_c07_twins {
     }
 
     //@ obligation C07 C07.PhysFrame_add_u64.exact_or_panic
+    //@ obligation C03 C03.PhysFrame_add_u64.valid
     #[kani::proof]
     #[kani::should_panic]
     fn c07_twin_physframe_add_u64_panics() {
@@ -663,6 +682,7 @@ mod verif_c07_twins {
     }
 
     //@ obligation C07 C07.PhysFrame_add_assign_u64.exact_or_panic
+    //@ obligation C03 C03.PhysFrame_add_assign_u64.valid
     #[kani::proof]
     fn c07_twin_physframe_add_assign_u64_exact() {
         let sel: u8 = kani::any();
@@ -681,6 +701,7 @@ mod verif_c07_twins {
     }
 
     //@ obligation C07 C07.PhysFrame_add_assign_u64.exact_or_panic
+    //@ obligation C03 C03.PhysFrame_add_assign_u64.valid
     #[kani::proof]
     #[kani::should_panic]
     fn c07_twin_physframe_add_assign_u64_panics() {
@@ -741,6 +762,7 @@ mod verif_c07_twins {
     }
 
     //@ obligation C07 C07.PhysFrame_sub_u64.exact_or_panic
+    //@ obligation C03 C03.PhysFrame_sub_u64.valid
     #[kani::proof]
     #[kani::should_panic]
     fn c07_twin_physframe_sub_u64_panics() {
@@ -757,6 +779,7 @@ mod verif_c07_twins {
     }
 
     //@ obligation C07 C07.PhysFrame_sub_assign_u64.exact_or_panic
+    //@ obligation C03 C03.PhysFrame_sub_assign_u64.valid
     #[kani::proof]
     fn c07_twin_physframe_sub_assign_u64_exact() {
         let sel: u8 = kani::any();
@@ -775,6 +798,7 @@ mod verif_c07_twins {
     }
 
     //@ obligation C07 C07.PhysFrame_sub_assign_u64.exact_or_panic
+    //@ obligation C03 C03.PhysFrame_sub_assign_u64.valid
     #[kani::proof]
     #[kani::should_panic]
     fn c07_twin_physframe_sub_assign_u64_panics() {
